@@ -651,7 +651,7 @@ class Run:
             if root.tag not in ("{%s}sld" % P, "{%s}sldLayout" % P, "{%s}sldMaster" % P, "{%s}notes" % P, "{%s}notesMaster" % P):
                 continue
             ids = xp(root, "//p:cNvPr[not(ancestor::p:oleObj and @id='0')]/@id")  # the icon picture nested in p:oleObj carries id=0 by convention (any other id it carries counts)
-            ids = [str(int(i)) if i.isdecimal() else i for i in ids]  # '003' and '3' are one id
+            ids = [monitors.canon_id(i) for i in ids]  # '003', ' 3', '+3' and '3' are one id
             dups = {i for i, c in Counter(ids).items() if c > 1}
             known = self.id_dups.setdefault(part, None)
             if known is None:
@@ -669,7 +669,7 @@ class Run:
         sldIdLst = prs.part._element.find("{%s}sldIdLst" % P)
         cur = {}
         if sldIdLst is not None:
-            vals = [str(int(s.get("id"))) if (s.get("id") or "").isdecimal() else s.get("id") for s in sldIdLst if isinstance(s.tag, str)]
+            vals = [monitors.canon_id(s.get("id")) for s in sldIdLst if isinstance(s.tag, str)]
             for v, c in Counter(vals).items():
                 if c > 1 and v not in self.sld_dups:
                     self.sld_dups.add(v)
